@@ -509,6 +509,7 @@ func runCheck(args []string) int {
 			"obligations_selected":          len(sel),
 			"generation_s":                  genS,
 			"solve_s":                       solveS,
+			"frame_prefixes_matching_no_component_in_this_run": V.unmatchedFramePrefixes(nil),
 		},
 	}
 	if samples == nil {
